@@ -418,16 +418,37 @@ func (hash *SexpHash) HashDelete(key Sexp) error {
 		return nil
 	}
 
-	hash.NumKeys--
 	for i, pair := range arr {
 		res, err := hash.Env.Compare(pair.Head, key)
 		if err == nil && res == 0 {
-			hash.Map[hashval] = append(arr[0:i], arr[i+1:]...)
+			arr = append(arr[0:i], arr[i+1:]...)
+			if len(arr) == 0 {
+				delete(hash.Map, hashval)
+			} else {
+				hash.Map[hashval] = arr
+			}
+			hash.NumKeys--
+			hash.removeFromKeyOrder(key)
 			break
 		}
 	}
 
 	return nil
+}
+
+// removeFromKeyOrder drops the (first) entry of KeyOrder that compares
+// equal to key. A fresh slice is built because CloneFrom shares KeyOrder.
+func (hash *SexpHash) removeFromKeyOrder(key Sexp) {
+	for j, k := range hash.KeyOrder {
+		res, err := hash.Env.Compare(k, key)
+		if err == nil && res == 0 {
+			ko := make([]Sexp, 0, len(hash.KeyOrder)-1)
+			ko = append(ko, hash.KeyOrder[:j]...)
+			ko = append(ko, hash.KeyOrder[j+1:]...)
+			hash.KeyOrder = ko
+			return
+		}
+	}
 }
 
 func HashCountKeys(hash *SexpHash) int {
